@@ -174,6 +174,8 @@ def write_bytes(kind, payload, bpm, rep):
     d = tempfile.mkdtemp(prefix="mingus_verif_")
     try:
         p = os.path.join(d, "x.mid")
+        with open(p, "wb") as f:          # writing REPLACES whatever the path held: a longer file is there already
+            f.write(b"MThd" + bytes([0xAB]) * 6000)
         if kind == "note":
             ok = out.write_Note(p, mk_note(payload), bpm, rep)
         elif kind == "nc":
